@@ -252,6 +252,39 @@ def build_fgg(ag, kind='real', dtype=None, *, rule_order=None, implicit_ids=Fals
     return g, info
 
 
+def build_incremental(ag, on_step, with_start_first=True):
+    """Build the HRG step by step through the public API, calling on_step(hrg, stage_ag) after the
+    constructor, after every label registration batch and after every rule -- so that queries are
+    observed on every prefix of the construction history (stale caches show up here)."""
+    import fggs
+    from fggs import HRG, Graph, Node, Edge, EdgeLabel, NodeLabel, HRGRule
+    nl = {n: NodeLabel(n) for n in ag['nls']}
+    el = {n: EdgeLabel(n, [nl[x] for x in d['type']], is_terminal=d['t'], is_nonterminal=not d['t'])
+          for n, d in ag['els'].items()}
+    g = HRG(el[ag['start']])
+    stage = {'nls': ag['nls'], 'els': {ag['start']: ag['els'][ag['start']]}, 'elorder': [ag['start']],
+             'start': ag['start'], 'rules': []}
+    on_step(g, stage)
+    for n in ag['elorder']:
+        g.add_edge_label(el[n])
+        if n not in stage['els']:
+            stage = dict(stage, els=dict(stage['els'], **{n: ag['els'][n]}), elorder=stage['elorder'] + [n])
+        if not ag['els'][n]['t']:
+            on_step(g, stage)
+    for ri, r in enumerate(ag['rules']):
+        rhs = Graph()
+        nodes = [Node(nl[l], id=f'r{ri}v{j+1}') for j, l in enumerate(r['nodes'])]
+        for v in nodes:
+            rhs.add_node(v)
+        for k, e in enumerate(r['edges']):
+            rhs.add_edge(Edge(el[e['lab']], [nodes[a - 1] for a in e['att']], id=f'r{ri}e{k+1}'))
+        rhs.ext = [nodes[a - 1] for a in r['ext']]
+        g.add_rule(HRGRule(el[r['lhs']], rhs))
+        stage = dict(stage, rules=stage['rules'] + [r])
+        on_step(g, stage)
+    return g
+
+
 def semiring_for(kind, dtype=None):
     import torch
     from fggs.semirings import RealSemiring, LogSemiring, ViterbiSemiring, BoolSemiring
